@@ -613,12 +613,14 @@ impl StyleData {
             for rule in ruleset {
                 if rule.selector.matches(handle) {
                     verif_tick!(ProbeRuleMatched);
+                    // The same for every declaration of the rule.
+                    let specificity = rule.selector.specificity();
                     for style in rule.styles.iter() {
                         Self::merge_computed_style(
                             &mut result,
                             style.importance == Importance::Important,
                             origin,
-                            rule.selector.specificity(),
+                            specificity,
                             rule.selector.pseudo_element.as_ref(),
                             style,
                         );
